@@ -31,13 +31,17 @@ reg(Prop("C06",
          trusted=["Independent = the clause list of C06 plus: neither instruction writes the instruction pointer (F08 repair)"]))
 
 reg(Prop("C05",
-         [("depsx", gd.g_depsx, 6), ("depsx_long", gd.g_depsx_long, 3), ("depsxwitness", gd.g_witness_x, 0)],
-         lambda c: "mv-ok" in c.tags,
+         [("depsx", gd.g_depsx, 6), ("depsx_long", gd.g_depsx_long, 3), ("depsemu", gd.g_depsemu, 4),
+          ("depsxwitness", gd.g_witness_x, 0)],
+         lambda c: "mv-ok" in c.tags or "e2e-moved" in c.tags,
          _GEN + "histories as for C07, plus one-block histories with many accepted moves; after every accepted instruction move "
          "the original order and the current order of the block are executed by the reference semantics (effects evaluated in "
          "the pre-state, an instruction-pointer write is a jump, otherwise fall through to current address + length) from 5 "
          "pseudo-random valuations and compared on all registers of the block's footprint, all written memory cells and the "
-         "final instruction pointer; block moves must not change any address; non-trivial = at least one accepted move to "
-         "another position",
+         "final instruction pointer; block moves must not change any address; stream depsemu observes the property end to "
+         "end: the real emulator (emulator.New + Step) runs every block of the moved code and of an untouched copy from the "
+         "same provider-supplied machine state and the final states must be equal; non-trivial = at least one accepted move "
+         "to another position",
          3000, 150000,
-         trusted=["execution oracle = Spec.Lift.applyEffects / nextIp, not the Go emulator (tied to it by C03/C04)"]))
+         trusted=["execution oracle of depsx = Spec.Lift.applyEffects / nextIp (tied to the Go emulator by C03/C04); "
+                  "depsemu runs the Go emulator itself and has no model side (oracle only)"]))
